@@ -223,6 +223,38 @@ func init() {
 					c09x = c09extra{}
 				}
 			}
+			// a spec disabled and enabled again between failures: the failures before it still count
+			if cc.nchild >= 2 && typ != SupervisorTypeSimpleOneForOne {
+				for intensity := 1; intensity <= 3; intensity++ {
+					for after := 1; after <= intensity; after++ {
+						c09x = c09extra{toggleAfter: after}
+						gaps := []int64{0, 500, 1001}
+						maxLen := intensity + 1
+						seq := make([]int, maxLen)
+						var rec func(d int)
+						rec = func(d int) {
+							if d > 0 {
+								gaveUp := c09RunSupervisor(r, cfg, intensity, 1, 0, gaps, seq[:d])
+								distinct[fmt.Sprint("toggle", after, intensity, seq[:d], gaveUp)] = true
+								r.Executions++
+								r.Transitions += d
+								if gaveUp {
+									return
+								}
+							}
+							if d == maxLen {
+								return
+							}
+							for g := range gaps {
+								seq[d] = g
+								rec(d + 1)
+							}
+						}
+						rec(0)
+						c09x = c09extra{}
+					}
+				}
+			}
 			// simple-one-for-one: children of a disabled spec that are being stopped are not failures
 			if typ == SupervisorTypeSimpleOneForOne {
 				for _, k := range []int{1, 2, 3} {
@@ -283,6 +315,7 @@ type c09extra struct {
 	raw                     bool
 	rawIntensity, rawPeriod int
 	preDisable              int
+	toggleAfter             int  // after that many failures the last child's spec is disabled and enabled again through the API (neither is a failure, neither forgets one)
 	double                  bool // at every step the last child and the first child fail at the same moment (both exits are queued before the supervisor runs)
 }
 
@@ -355,7 +388,11 @@ func c09RunSupervisor(r *harn.Result, cfg c08cfg, intensity, period, victim int,
 		var times, coalesced []int64
 		t := int64(0)
 		desc := func() string {
-			return fmt.Sprintf("%s, intensity %d, period %ds, child %s crashing at %v ms", cfg.name(), intensity, period, specNames[victim], times)
+			extra := ""
+			if x.toggleAfter > 0 {
+				extra = fmt.Sprintf(" (child %s disabled and enabled again after failure #%d)", specNames[cfg.nchild-1], x.toggleAfter)
+			}
+			return fmt.Sprintf("%s, intensity %d, period %ds, child %s crashing at %v ms%s", cfg.name(), intensity, period, specNames[victim], times, extra)
 		}
 		for k := range seq {
 			t += gaps[seq[k]]
@@ -424,6 +461,37 @@ func c09RunSupervisor(r *harn.Result, cfg c08cfg, intensity, period, victim int,
 				}
 				if len(st.f.liveOf(specNames[i])) != 1 {
 					r.Fail("child-not-restarted", "%s: after failure #%d child %s has %d instances", desc(), k+1, specNames[i], len(st.f.liveOf(specNames[i])))
+					return ""
+				}
+			}
+			if x.toggleAfter == k+1 && cfg.typ != SupervisorTypeSimpleOneForOne {
+				last := specNames[cfg.nchild-1]
+				for _, call := range []string{"disable", "enable"} {
+					call := call
+					st.guard(func() {
+						if call == "disable" {
+							st.s.DisableChild(last)
+						} else {
+							st.s.EnableChild(last)
+						}
+					})
+					st.run()
+					for guard := 0; guard < 20 && len(st.f.exitReq) > 0 && st.ended == nil; guard++ {
+						var ps []gen.PID
+						for p := range st.f.exitReq {
+							ps = append(ps, p)
+						}
+						sort.Slice(ps, func(i, j int) bool { return ps[i].ID < ps[j].ID })
+						st.f.die(ps[0], st.f.exitReq[ps[0]])
+						st.run()
+					}
+					if st.ended != nil {
+						r.Fail("gave-up-too-early", "%s: the supervisor terminated (%v) on %s of child %s (a request, not a failure)", desc(), st.ended, call, last)
+						return ""
+					}
+				}
+				if n := len(st.f.liveOf(last)); n != 1 {
+					r.Fail("child-not-restarted", "%s: after disabling and enabling child %s it has %d instances", desc(), last, n)
 					return ""
 				}
 			}
